@@ -1114,8 +1114,20 @@ def analyse_rldecode(ctx: Ctx, mod) -> Optional[int]:
     rv = f.canon2(rets[0].value, rets[0])  # type: ignore[arg-type]
     if isinstance(rv, ast.Call) and call_name(rv) == "repeat" and len(rv.args) >= 2:
         a0, a1 = rv.args[0], rv.args[1]
-        ok = (u(a0) == "A" and u(a1) == "n") or (isinstance(a0, ast.Subscript) and isinstance(a1, ast.Subscript)
-                                                   and u(a0.value) == "A" and u(a1.value) == "n" and u(a0.slice) == u(a1.slice))
+
+        def split(e: ast.expr, base: str):
+            """base | base[mask] | base[:n.size] | base[:n.size][mask]  ->  (True, mask text or None)"""
+            mask = None
+            if isinstance(e, ast.Subscript) and not isinstance(e.slice, ast.Slice):
+                mask, e = u(e.slice), e.value
+            if isinstance(e, ast.Subscript) and isinstance(e.slice, ast.Slice) and e.slice.lower is None and e.slice.step is None \
+                    and e.slice.upper is not None and u(e.slice.upper) in ("n.size", "len(n)", "n.shape[0]"):
+                e = e.value
+            return (u(e) == base), mask
+        (okA, mA), (okN, mN) = split(a0, "A"), split(a1, "n")
+        if not (okA and okN):
+            raise f.und("np.repeat is not applied to (a restriction of) A and n", rets[0])
+        ok = mA == mN
         ax = kwarg(rv, "axis")
         ctx.check("R5", ok, mod, q, rets[0], "np.repeat must repeat A by n", construct="rldecode: values and counts on the same runs")
         for k in ("positive-count mask", "marks on interior pointers", "length of the mark array"):
@@ -1127,6 +1139,22 @@ def analyse_rldecode(ctx: Ctx, mod) -> Optional[int]:
     if axis is None or idx is None:
         raise f.und("gather form not recognised", rets[0])
     arr = rv.value
+
+    def positions_of(e: ast.expr) -> Optional[ast.expr]:
+        """np.flatnonzero(m) | np.where(m)[0] | np.nonzero(m)[0] | np.argwhere(m).ravel()  ->  m"""
+        if isinstance(e, ast.Call) and isinstance(e.func, ast.Attribute) and e.func.attr in ("ravel", "flatten") and not e.args:
+            e = e.func.value
+            return e.args[0] if isinstance(e, ast.Call) and call_name(e) == "argwhere" and len(e.args) == 1 else None
+        if isinstance(e, ast.Call) and call_name(e) == "flatnonzero" and len(e.args) == 1:
+            return e.args[0]
+        if isinstance(e, ast.Subscript) and _const_int(e.slice) == 0 and isinstance(e.value, ast.Call) \
+                and call_name(e.value) in ("where", "nonzero") and len(e.value.args) == 1:
+            return e.value.args[0]
+        return None
+    pos_mask = None
+    if isinstance(idx, ast.Subscript) and positions_of(idx.value) is not None:
+        # A[positions of the kept runs][run index] written as A[positions[run index]]
+        pos_mask, idx = positions_of(idx.value), idx.slice
     # the run index: cumsum(j), j = zeros(total) with marks j[ptr[a:b]] = 1
     if not (isinstance(idx, ast.Call) and call_name(idx) == "cumsum"):
         raise f.und("run index is not a cumulative sum of marks", rets[0])
@@ -1146,6 +1174,8 @@ def analyse_rldecode(ctx: Ctx, mod) -> Optional[int]:
         _, ri = _gather_axis(g_raw)
         if ri is not None:
             c_raw, c_at = step(ri, g_at)
+            if isinstance(c_raw, ast.Subscript) and not (isinstance(c_raw.value, ast.Name) and c_raw.value.id == "A"):
+                c_raw, c_at = step(c_raw.slice, c_at)  # positions[run index]
             if isinstance(c_raw, ast.Call) and call_name(c_raw) == "cumsum":
                 src = c_raw.args[0] if c_raw.args else (c_raw.func.value if isinstance(c_raw.func, ast.Attribute) else None)
                 if isinstance(src, ast.Name) and src.id not in ("np", "numpy"):
@@ -1224,6 +1254,11 @@ def analyse_rldecode(ctx: Ctx, mod) -> Optional[int]:
         vmask = carr.slice
     elif u(carr) != "A":
         raise f.und("gathered array is not A or A[mask]", rets[0])
+    if pos_mask is not None:
+        if vmask is not None:
+            raise f.und("values restricted twice (mask and positions)", rets[0])
+        vmask = pos_mask
+        carr = ast.Subscript(value=carr, slice=ast.Call(func=ast.Name(id="positions_of", ctx=ast.Load()), args=[pos_mask], keywords=[]), ctx=ast.Load())
     same = (mask is None and vmask is None) or (mask is not None and vmask is not None and u(mask) == u(vmask))
     ctx.check("R5", same, mod, q, rets[0],
               "the run index counts only the runs kept by the filter on n, so it must index the values of those runs: "
@@ -1784,8 +1819,8 @@ MUTANTS = [
     _m("seed-eip-cast-after-subtraction", "    lo = lo[pos_diff].astype(int)\n", "    lo = lo[pos_diff]\n", "R4", file=AO),
     _m("eip-jump-positions-all-lengths", "x[np.cumsum(num_elements_in_interval[0:-1])]", "x[np.cumsum(num_elements_in_interval[1:])]", "R4", file=AO),
     # ---- R5 rldecode: values restricted like the counts (reverted fix 9e1228e1d)
-    _m("revert-fix-rldecode-unrestricted-values", "    B = A[r][np.cumsum(j)]\n", "    B = A[np.cumsum(j)]\n", "R5", control=True),
-    _m("rldecode-values-filtered-by-other-mask", "    B = A[r][np.cumsum(j)]\n", "    B = A[n >= 0][np.cumsum(j)]\n", "R5"),
+    _m("revert-fix-rldecode-unrestricted-values", "    B = A[np.flatnonzero(r)[np.cumsum(j)]]\n", "    B = A[np.cumsum(j)]\n", "R5", control=True),
+    _m("rldecode-values-filtered-by-other-mask", "    B = A[np.flatnonzero(r)[np.cumsum(j)]]\n", "    B = A[np.flatnonzero(n >= 0)[np.cumsum(j)]]\n", "R5"),
     # ---- R6 run-length internals
     _m("rldecode-marks-include-first-pointer", "j[i[1:-1:]] = 1", "j[i[0:-1:]] = 1", "R6"),
     _m("rldecode-mask-drops-single-repeats", "    r = n > 0\n", "    r = n > 1\n", "R6", control=True),
